@@ -117,6 +117,34 @@ func propStream(name string, r *Rand, n int, o *Out) bool {
 				h.Set(k, 3, hs)
 			}
 		}
+		// parsers with their own special-scheme table (as the Semantic profile has): "the scheme's default port" and "special" are
+		// the table's — through parse, the protocol and port setters, clone and resolution
+		for _, tbl := range []map[string]string{gopherSchemes, {"http": "8080", "https": "443", "file": "", "ipfs": ""}} {
+			c := newCfg("specialSchemes:c19", url.NewParser(url.WithSpecialSchemes(tbl)), 0, 0)
+			schemes := []string{"http", "https", "ftp", "gopher", "ipfs", "ws", "sc"}
+			for _, sch := range schemes {
+				for _, port := range []string{"", ":80", ":8080", ":70", ":21", ":0", ":443"} {
+					h := &Hist{}
+					k := h.Parse(c, sch+"://1.2.3.4"+port+"/x")
+					if k < 0 {
+						continue
+					}
+					checkAccessorsTbl(h.urls[k], tbl, strings.Join(h.ops, " ; "))
+					to := schemes[(len(sch)+len(port))%len(schemes)]
+					h.Set(k, 0, to)
+					checkAccessorsTbl(h.urls[k], tbl, strings.Join(h.ops, " ; "))
+					if c2 := h.Clone(k); c2 >= 0 {
+						checkAccessorsTbl(h.urls[c2], tbl, strings.Join(h.ops, " ; "))
+					}
+					if r2 := h.Resolve(k, "/y"); r2 >= 0 {
+						checkAccessorsTbl(h.urls[r2], tbl, strings.Join(h.ops, " ; "))
+					}
+					h.Set(k, 5, "")
+					checkAccessorsTbl(h.urls[k], tbl, strings.Join(h.ops, " ; "))
+					o.EmitHist("t", h)
+				}
+			}
+		}
 		for i := 0; i < n; i++ {
 			ho := defaultHist("C19")
 			ho.Clone = true
@@ -538,6 +566,11 @@ func checkC06On(b *url.Url, baseStr, ref, tok string) {
 				orc.Fail("C06", "query-reference", "'?q' reference kept the fragment", tok)
 			}
 		}
+	}
+	// the RESULT of a resolution is a url like any other: its serialization resolves to itself (a state only a resolution
+	// reaches — a component that the relative states write differently from the absolute ones — shows here)
+	if e3 == nil {
+		checkC06Self(u3, b, tok+" ; R-self")
 	}
 	if !hasScheme(ref) {
 		if d.Opaque && !(len(s) > 0 && s[0] == '#') && e3 == nil {
